@@ -1,15 +1,39 @@
 (* C03, weather station part — per-thread framer (buffer map keyed by the handler thread id).
-   PARTIAL: resynchronisation is proved from ANY state up to two error outcomes of the model: the
-   TypeError branch (first token not 'r'/'w'; unreachable because a buffer always starts with a
-   command letter and a space, an invariant that is validated by the correspondence but not proved
-   here) and a missing oracle entry.  Statements only. *)
-From DS Require Import Base.Prelude Model.SmbCommon Model.SmbWeather Proofs.SmbCommon Proofs.SmbWeather.
+   [fmt] is the per-case oracle for f'{float(tok):0.6f}'; "fmt total" = the builtin returns.
+   Statements only. *)
+From DS Require Import Base.Prelude Model.SmbCommon Model.SmbWeather Proofs.SmbCommon Proofs.SmbWeather
+  Proofs.SmbWeatherInv.
 
-Theorem C03_weather_resync_partial : forall fmt d t,
+(* In every state reachable by ANY interleaving of bytes of ANY threads, every pending buffer is a
+   command letter, or a command letter, a space and further bytes. *)
+Theorem C03_weather_invariant : forall fmt cfg ops t m,
+  buf_get t (bufs (fst (ws_run fmt (ws_init cfg) ops))) = Some m ->
+  exists c, (c = R_CHAR \/ c = W_CHAR) /\ (m = [c] \/ exists rest, m = c :: SP :: rest).
+Proof. exact (fun fmt cfg ops => ws_run_inv fmt ops (ws_init cfg) (ws_init_inv cfg)). Qed.
+Print Assumptions C03_weather_invariant.
+
+(* Hence, after any such history, the terminator on thread t leaves thread t idle. *)
+Theorem C03_weather_resync : forall fmt cfg ops t, (forall x, fmt x <> None) ->
+  ws_idle (fst (ws_step fmt (fst (ws_run fmt (ws_init cfg) ops)) t LF)) t = true.
+Proof. exact ws_resync_reachable. Qed.
+Print Assumptions C03_weather_resync.
+
+(* ... and no step in a reachable state raises (the getattr(self, None) TypeError of the code is
+   unreachable). *)
+Theorem C03_weather_no_exception : forall fmt cfg ops t b e,
+  snd (ws_step fmt (fst (ws_run fmt (ws_init cfg) ops)) t b) <> OException e.
+Proof.
+  exact (fun fmt cfg ops t b e =>
+           ws_step_no_exception fmt _ t b e (ws_run_inv fmt ops (ws_init cfg) (ws_init_inv cfg))).
+Qed.
+Print Assumptions C03_weather_no_exception.
+
+(* the version for ANY state, with the model's two error outcomes as disjuncts *)
+Theorem C03_weather_resync_any_state : forall fmt d t,
   ws_idle (fst (ws_step fmt d t LF)) t = true \/
   snd (ws_step fmt d t LF) = OException TypeError \/ snd (ws_step fmt d t LF) = ONoOracle.
 Proof. exact ws_resync. Qed.
-Print Assumptions C03_weather_resync_partial.
+Print Assumptions C03_weather_resync_any_state.
 
 (* an idle thread discards every byte that is not 'r' or 'w': False, its buffer stays absent, the
    sensors are untouched *)
